@@ -23,13 +23,18 @@ for sid in ids:
         continue
     prop = sid.split('-')[0]
     meta = json.load(open(os.path.join(d, 'meta.json')))
-    props = [prop]
     r = {'property': prop, 'checks': {}}
-    for p in props:
-        c = subprocess.run(['python3', '-m', 'vf.check', p], cwd='/verif', env=env, capture_output=True, text=True)
-        lines = [l for l in c.stdout.split('\n') if l.startswith(('VIOLATION', 'INCONCLUSIVE', 'KNOWN'))]
-        r['checks'][p] = {'exit': c.returncode, 'lines': [l[:400] for l in lines][:6], 'tail': c.stdout.strip().split('\n')[-1][:200]}
+    c = subprocess.run(['python3', '-m', 'vf.check', '--all'], cwd='/verif', env=env, capture_output=True, text=True)
+    lines = [l for l in c.stdout.split('\n') if l.startswith(('VIOLATION', 'INCONCLUSIVE', 'KNOWN'))]
+    summ = [l for l in c.stdout.split('\n') if l.startswith('SUMMARY')]
+    if summ:
+        for kv in summ[0].split()[1:]:
+            k, v = kv.split('=')
+            r['checks'][k] = {'exit': int(v)}
+    else:
+        r['error'] = c.stdout[-1500:] + c.stderr[-1500:]
+    r['lines'] = [l[:300] for l in lines][:12]
     res[sid] = r
     json.dump(res, open(RES, 'w'), indent=1)
-    print(sid, {p: v['exit'] for p, v in r['checks'].items()}, flush=True)
+    print(sid, 'own=%s' % r['checks'].get(prop, {}).get('exit'), 'caught_by=' + ','.join(p for p, v in r['checks'].items() if v['exit'] == 1), 'inconcl=' + ','.join(p for p, v in r['checks'].items() if v['exit'] == 2), flush=True)
 subprocess.run('git checkout -q -- . && git clean -fdq', shell=True, cwd=WT)
